@@ -11,71 +11,44 @@ open Gnpy.Gn
 theorem exp_alpha_is_db (c len : ℝ) : Real.exp (-(alphaOfLoss c * len)) = db2lin (-(c * len)) := by
   rw [alphaOfLoss_eq, db2lin_eq]; congr 1; ring
 
-/-- **each lumped loss multiplies exactly once** (no-Raman profile): when the lumped losses sit at pairwise distinct
-positions strictly inside the fibre, the attenuation at the fibre end is `exp(−αL) · Π lumped` -/
-theorem lumped_once (alpha len : ℝ) (lumped : List (ℝ × ℝ)) (hlen : 0 < len)
-    (hpos : ∀ x ∈ lumped, 0 < x.1 ∧ x.1 < len) (hd : (lumped.map (·.1)).Nodup) :
+/-- **each lumped loss multiplies exactly once** (no-Raman profile): the attenuation at the fibre end is
+`exp(−αL) · Π lumped`, wherever the losses sit (also several at one position, also on a grid point) -/
+theorem lumped_once (alpha len : ℝ) (lumped : List (ℝ × ℝ)) :
     fibreLossLin alpha len lumped = Real.exp (-(alpha * len)) * prodL (lumped.map (·.2)) := by
   simp only [fibreLossLin, createLumped, transc_exp]
   congr 1
   rw [foldl_insert_prod]
-  · simp [prodL_append, prodL]
-  · simp only [List.map_append, List.map_cons, List.map_nil, Nat.cast_zero]
-    rw [List.nodup_append]
-    refine ⟨hd, ?_, ?_⟩
-    · simp only [List.nodup_cons, List.mem_cons, List.not_mem_nil, or_false, not_false_eq_true, List.nodup_nil,
-        and_true]
-      exact ne_of_lt hlen
-    · intro a ha b hb
-      simp only [List.mem_map] at ha
-      obtain ⟨x, hx, rfl⟩ := ha
-      have := hpos x hx
-      simp only [List.mem_cons, List.not_mem_nil, or_false] at hb
-      rcases hb with rfl | rfl
-      · exact ne_of_gt this.1
-      · exact ne_of_lt this.2
-  · intro p _; simp
+  simp [prodL_append, prodL]
+
+/-- `_create_lumped_losses` returns strictly increasing positions (`numpy.unique`) -/
+theorem createLumped_sorted (lumped : List (ℝ × ℝ)) (z : List ℝ) :
+    ((createLumped lumped z).map (·.1)).Pairwise (· < ·) := by
+  simp only [createLumped]
+  generalize (lumped ++ z.map (fun x => (x, ((1:Nat):ℝ)))) = pts
+  suffices h : ∀ (acc : List (ℝ × ℝ)), (acc.map (·.1)).Pairwise (· < ·) →
+      ((pts.foldl (fun a pt => insertPoint pt a) acc).map (·.1)).Pairwise (· < ·) from h [] (by simp)
+  induction pts with
+  | nil => intro acc h; exact h
+  | cons pt rest ih => intro acc h; exact ih _ (insertPoint_sorted pt acc h).1
 
 /-- the whole of `Fiber.propagate` (Raman off) on one channel is one multiplication by `db2lin(−budget)` -/
-theorem propagateP_eq (p conIn attIn c len conOut : ℝ) (lumpedKm : List (ℝ × ℝ)) (hlen : 0 < len)
-    (hok : lumpedPositionsOk len lumpedKm = true) (hd : (lumpedKm.map (·.1)).Nodup) :
+theorem propagateP_eq (p conIn attIn c len conOut : ℝ) (lumpedKm : List (ℝ × ℝ)) :
     propagateP p conIn attIn (alphaOfLoss c) len (mkLumped lumpedKm) conOut
       = p * db2lin (-(attIn + conIn + c * len + sumL (lumpedKm.map (·.2)) + conOut)) := by
-  have hpos : ∀ x ∈ mkLumped lumpedKm, 0 < x.1 ∧ x.1 < len := by
-    intro x hx
-    simp only [mkLumped, List.mem_map] at hx
-    obtain ⟨y, hy, rfl⟩ := hx
-    simp only [lumpedPositionsOk, List.all_eq_true, Bool.and_eq_true, decide_eq_true_eq, Nat.cast_zero,
-      Nat.cast_one, Nat.cast_ofNat] at hok
-    have := hok y hy
-    constructor
-    · simp only [Nat.cast_ofNat]; nlinarith [this.1]
-    · simp only [Nat.cast_ofNat]; nlinarith [this.2]
-  have hnd : ((mkLumped lumpedKm).map (·.1)).Nodup := by
-    simp only [mkLumped, List.map_map]
-    have : ((fun x : ℝ × ℝ => x.1) ∘ fun x : ℝ × ℝ => (x.1 * ((1000:Nat):ℝ), lumpedLin x.2))
-        = (fun z : ℝ => z * 1000) ∘ (fun x : ℝ × ℝ => x.1) := by
-      funext x; simp
-    rw [this, ← List.map_map]
-    apply List.Nodup.map _ hd
-    intro a b h
-    simp only at h
-    linarith
   have hprod : prodL ((mkLumped lumpedKm).map (·.2)) = db2lin (-(sumL (lumpedKm.map (·.2)))) := by
     rw [← prod_lumpedLin]
     simp [mkLumped, List.map_map, Function.comp_def]
   simp only [propagateP, applyAttDb, Nat.cast_one]
-  rw [lumped_once _ _ _ hlen hpos hnd, exp_alpha_is_db, hprod, one_div, one_div, ← db2lin_neg, ← db2lin_neg]
+  rw [lumped_once, exp_alpha_is_db, hprod, one_div, one_div, ← db2lin_neg, ← db2lin_neg]
   rw [mul_assoc, mul_assoc, ← db2lin_add, ← db2lin_add, ← db2lin_add]
   congr 2; ring
 
 /-- **loss budget**: with Raman off every channel is attenuated, in dB, by exactly
 `padding + input connector + length × loss coefficient + Σ lumped losses + output connector` -/
-theorem loss_budget (p conIn attIn c len conOut : ℝ) (lumpedKm : List (ℝ × ℝ)) (hp : 0 < p) (hlen : 0 < len)
-    (hok : lumpedPositionsOk len lumpedKm = true) (hd : (lumpedKm.map (·.1)).Nodup) :
+theorem loss_budget (p conIn attIn c len conOut : ℝ) (lumpedKm : List (ℝ × ℝ)) (hp : 0 < p) :
     lin2db (p / propagateP p conIn attIn (alphaOfLoss c) len (mkLumped lumpedKm) conOut)
       = attIn + conIn + c * len + sumL (lumpedKm.map (·.2)) + conOut := by
-  rw [propagateP_eq p conIn attIn c len conOut lumpedKm hlen hok hd]
+  rw [propagateP_eq p conIn attIn c len conOut lumpedKm]
   have h := db2lin_pos (-(attIn + conIn + c * len + sumL (lumpedKm.map (·.2)) + conOut))
   rw [show p / (p * db2lin (-(attIn + conIn + c * len + sumL (lumpedKm.map (·.2)) + conOut)))
       = (db2lin (-(attIn + conIn + c * len + sumL (lumpedKm.map (·.2)) + conOut)))⁻¹ by field_simp]
@@ -84,32 +57,26 @@ theorem loss_budget (p conIn attIn c len conOut : ℝ) (lumpedKm : List (ℝ × 
 /-- the same on the span record: the loss coefficient is the one of the channel's own frequency
 (scalar or interpolated per frequency) -/
 theorem span_loss_budget (s : Span ℝ) (lumpedKm : List (ℝ × ℝ)) (f p c : ℝ) (hl : s.lumped = mkLumped lumpedKm)
-    (hc : lossCoef s.fib f = some c) (hp : 0 < p) (hlen : 0 < s.fib.len)
-    (hok : lumpedPositionsOk s.fib.len lumpedKm = true) (hd : (lumpedKm.map (·.1)).Nodup) :
+    (hc : lossCoef s.fib f = some c) (hp : 0 < p) :
     ∃ pout, spanOut s f p = some pout ∧
       lin2db (p / pout) = s.attIn + s.conIn + c * s.fib.len + sumL (lumpedKm.map (·.2)) + s.conOut := by
   refine ⟨propagateP p s.conIn s.attIn (alphaOfLoss c) s.fib.len s.lumped s.conOut, ?_, ?_⟩
   · simp [spanOut, alphaAt, hc]
-  · rw [hl]; exact loss_budget p s.conIn s.attIn c s.fib.len s.conOut lumpedKm hp hlen hok hd
+  · rw [hl]; exact loss_budget p s.conIn s.attIn c s.fib.len s.conOut lumpedKm hp
 
-/-- CURRENT CODE: of two lumped losses at the same position only the first is applied
-(`numpy.unique` in `RamanSolver._create_lumped_losses` keeps one entry per position) -/
-theorem same_position_dropped (alpha len z a b : ℝ) (h0 : 0 < z) (h1 : z < len) :
-    fibreLossLin alpha len [(z, a), (z, b)] = Real.exp (-(alpha * len)) * a := by
-  have hlen : 0 < len := lt_trans h0 h1
-  have n1 : ¬ len < 0 := not_lt.2 (le_of_lt hlen)
-  have n2 : ¬ len < z := not_lt.2 (le_of_lt h1)
-  simp [fibreLossLin, createLumped, insertPoint, prodL, h0, h1, hlen, n1, n2]
-
-/-- hence the loss budget is NOT met by the current code for such a fibre (witness: 1 dB-like factors 1/2 and 1/2
-at the same place: the fibre end sees 1/2 instead of 1/4) -/
-theorem lumped_same_position_fails_current :
-    ∃ (alpha len : ℝ) (lumped : List (ℝ × ℝ)), 0 < len ∧ (∀ x ∈ lumped, 0 < x.1 ∧ x.1 < len) ∧
-      fibreLossLin alpha len lumped ≠ Real.exp (-(alpha * len)) * prodL (lumped.map (·.2)) := by
-  refine ⟨0, 2, [(1, 1 / 2), (1, 1 / 2)], by norm_num, ?_, ?_⟩
-  · intro x hx; simp at hx; rcases hx with rfl | rfl <;> norm_num
-  · rw [same_position_dropped 0 2 1 (1 / 2) (1 / 2) (by norm_num) (by norm_num)]
-    simp [prodL]
+/-- BEFORE FIX 74081ba1 (finding F12): of two lumped losses at the same position only the first was applied
+(`numpy.unique(..., return_index=True)` kept one entry per position).  Witness on the model of the old code:
+losses 1/2 and 1/2 at z = 1 of a fibre of length 2 leave the factor 1/2, the budget demands 1/4. -/
+theorem lumped_same_position_failed_before_fix :
+    prodL ((([((1:ℝ), (1/2:ℝ)), (1, 1/2), (0, 1), (2, 1)] : List (ℝ × ℝ)).foldl
+        (fun a pt => insertPointFirstWins pt a) []).map (·.2)) = 1 / 2 ∧
+    prodL ((createLumped [((1:ℝ), (1/2:ℝ)), (1, 1/2)] [0, 2]).map (·.2)) = 1 / 4 := by
+  constructor
+  · have h : ¬ ((2:ℝ) < 0) := by norm_num
+    simp [insertPointFirstWins, h]
+    norm_num [prodL]
+  · simp [createLumped, insertPoint]
+    norm_num [prodL]
 
 /-! ### accumulation of CD, latency (linear) and PMD, PDL (quadrature) over a path -/
 
@@ -203,9 +170,8 @@ theorem cd_at_ref (d b3 fr len : ℝ) (hf : 0 < fr) :
   ring
 
 /-! ### non-vacuity -/
-example : lumpedPositionsOk (80000:ℝ) [((20:ℝ), (1:ℝ)), (30, 2)] = true := by
+example : lumpedPositionsOk (80000:ℝ) [((20:ℝ), (1:ℝ)), (20, 2)] = true := by
   simp [lumpedPositionsOk]; norm_num
-example : ([((20:ℝ), (1:ℝ)), (30, 2)].map (·.1)).Nodup := by simp
 example : (0:ℝ) ≤ ({ cd := 0, pmd := 0, pdl := 0, latency := 0 } : Acc ℝ).pmd := le_refl _
 example : [lumpedContribution (1:ℝ) 2, fibreContribution 1 0 1 1 1 1].Perm
     [fibreContribution 1 0 1 1 1 1, lumpedContribution (1:ℝ) 2] := List.Perm.swap _ _ _
